@@ -7,6 +7,8 @@ use crate::grammar::*;
 use std::collections::{BTreeSet, HashSet};
 
 pub(super) fn detect_cycles(ast: &Ast, diagnostics: &mut Diagnostics) {
+    detect_inheritance_cycles(ast, diagnostics);
+
     let mut cycle_detector = CycleDetector {
         type_being_checked: None,
         dependency_stack: Vec::new(),
@@ -26,6 +28,46 @@ pub(super) fn detect_cycles(ast: &Ast, diagnostics: &mut Diagnostics) {
         debug_assert!(cycle_detector.dependency_stack.is_empty());
         cycle_detector.type_being_checked = Some((candidate.module_scoped_identifier(), candidate));
         candidate.check_for_cycles(&mut cycle_detector)
+    }
+}
+
+/// Reports an error for every interface that inherits from itself, directly or through its base interfaces.
+/// Nothing that follows this check could cope with such an interface: collecting its base interfaces never ends.
+fn detect_inheritance_cycles(ast: &Ast, diagnostics: &mut Diagnostics) {
+    // Searches the bases of `interface` (and their bases, and so on) for `target`, recording the path it takes.
+    // `visited` holds the interfaces that were already searched, so that no interface is searched twice.
+    fn find_path_to<'a>(
+        interface: &'a Interface,
+        target: &str,
+        visited: &mut HashSet<String>,
+        path: &mut Vec<&'a Interface>,
+    ) -> bool {
+        for base in interface.base_interfaces() {
+            path.push(base);
+            let base_id = base.module_scoped_identifier();
+            if base_id == target || (visited.insert(base_id) && find_path_to(base, target, visited, path)) {
+                return true;
+            }
+            path.pop();
+        }
+        false
+    }
+
+    for node in ast.as_slice() {
+        let Node::Interface(interface_ptr) = node else { continue };
+        let interface = interface_ptr.borrow();
+        let type_id = interface.module_scoped_identifier();
+
+        let mut path = Vec::new();
+        if find_path_to(interface, &type_id, &mut HashSet::new(), &mut path) {
+            // Create a string showing the cycle that was detected (a string of the form "A -> B -> C -> A").
+            let cycle = path.iter().fold(type_id.clone(), |cycle, base| {
+                cycle + " -> " + &base.module_scoped_identifier()
+            });
+            Diagnostic::new(Error::InfiniteSizeCycle { type_id, cycle })
+                .set_span(interface.span())
+                .push_into(diagnostics);
+        }
     }
 }
 
